@@ -7,7 +7,7 @@ import coqemit as E
 
 ID = "C19"
 PROPS = "Props/C19.v"
-IMPORTS = "From PV Require Import Lib.Common Model.C19_Pareto."
+IMPORTS = "From PV Require Import Lib.Common Model.C19_Pareto Gen.C19_Kernel Proofs.C19_Kernel."
 SHARD = 40
 LEVEL_TEXT = ("Coq theorems over an exact-rational executable model: the pivot filter of is_pareto_efficient (with its index "
               "bookkeeping; termination within npt iterations) marks only non-dominated points and every unmarked point is equalled or "
@@ -174,8 +174,10 @@ def _case_dist(rng, fn, npt, nobj, style, domain=True):
         shift = [t * 2.0 ** e for t, e in zip(shift, ex)]                          # a translation in the objective's own unit
     if not _exact_rows(mat, sign, shift): shift = [0.0] * nobj
     if not _exact_rows(mat, sign): sign = [1.0 if x > 0 else -1.0 for x in sign] if any(sign) else sign
+    route = "protocol" if fn == "prob" and rng.random() < 0.3 else "direct"
+    if route == "protocol" and domain and rng.random() < 0.5: sign, pref = [1.0] * nobj, [1.0] * nobj
     return {"kind": "dist", "fn": fn, "style": style, "nobj": nobj, "mat": mat, "sign": sign, "pref": pref, "shift": shift,
-            "units": ex, "layout": rng.choice(LAYOUTS), "extra_kw": rng.random() < 0.1}
+            "units": ex, "layout": rng.choice(LAYOUTS), "extra_kw": rng.random() < 0.1, "route": route}
 
 FNS = ["core", "prob", "transfn"]
 
@@ -298,6 +300,20 @@ def run_impl(case):
             call = lambda M: trans_ndpt_pseudo_dist(M, objfn_minmax=sign, objfn_pseudoweight=pref, **kw)
         elif case["fn"] == "prob":
             from pybrops.breed.prot.sel.prob.trans import trans_ndpt_to_vec_dist
+            if case.get("route") == "protocol":
+                # the library's own route: the default ndset_trans (and, for all-ones vectors, the default keyword arguments) that
+                # SelectionProtocol's property setters install
+                from pybrops.breed.prot.sel.SelectionProtocol import SelectionProtocol
+                class _Holder: pass
+                h = _Holder(); h.nobj = nobj
+                SelectionProtocol.ndset_trans.fset(h, None)
+                trans_ndpt_to_vec_dist = h._ndset_trans
+                if all(x == 1.0 for x in case["sign"] + case["pref"]):
+                    SelectionProtocol.ndset_trans_kwargs.fset(h, None)
+                    if sorted(h._ndset_trans_kwargs) != ["obj_wt", "vec_wt"]: raise TypeError("default ndset_trans_kwargs: %r" % sorted(h._ndset_trans_kwargs))
+                    sign, pref = h._ndset_trans_kwargs["obj_wt"], h._ndset_trans_kwargs["vec_wt"]
+                    s0, p0 = sign.copy(), pref.copy()
+                    if sign.tolist() != case["sign"] or pref.tolist() != case["pref"]: raise TypeError("default ndset_trans_kwargs are not all-ones vectors of length nobj")
             call = lambda M: trans_ndpt_to_vec_dist(M, obj_wt=sign, vec_wt=pref, **kw)
         else:
             from pybrops.breed.prot.sel.transfn import trans_ndpt_to_vec_dist as tfn
@@ -341,14 +357,16 @@ def emit_case(case, out):
                  "onl_eqb (pareto_idx %s %s) (Some %s)" % (wt, E.lst2(F, _q), E.lst(out["idx"], E.nat)),
                  "obl_eqb (pareto_mask %s %s) (Some %s)" % (wt, E.lst2(Fp, _q), E.lst(out["mask_perm"], E.b)),
                  "obl_eqb (pareto_mask %s %s) (Some %s)" % (wt, E.lst2(Fs, _q), E.lst(out["mask_scaled"], E.b)),
-                 "onl_eqb (pareto_idx %s %s) (Some %s)" % (wt, E.lst2(Fs, _q), E.lst(out["idx_scaled"], E.nat))]
+                 # the rescaled set through the loop RE-ASSEMBLED FROM THE GENERATED KERNELS (Gen/C19_Kernel.v)
+                 "onl_eqb (kern_pareto_idx %s %s) (Some %s)" % (wt, E.lst2(Fs, _q), E.lst(out["idx_scaled"], E.nat))]
         return "(" + "\n   && ".join(parts) + ")"
     if k == "dom":
         if "exc" in out: return "false"
         parts = []
         for i, (o1, c1) in enumerate(case["sols"]):
             for j, (o2, c2) in enumerate(case["sols"]):
-                parts.append("Bool.eqb (dominates_m %s %s %s %s) %s" % (E.lst(o1, _q), _q(c1), E.lst(o2, _q), _q(c2), E.b(out["tab"][i][j])))
+                fn_ = "dominates_m" if (i + j) % 2 == 0 else "k_dominates"        # hand model / body generated from the source
+                parts.append("Bool.eqb (%s %s %s %s %s) %s" % (fn_, E.lst(o1, _q), _q(c1), E.lst(o2, _q), _q(c2), E.b(out["tab"][i][j])))
         return "(" + "\n   && ".join(parts) + ")"
     if k == "dist":
         fnm = {"core": "trans_core", "prob": "trans_sel_prob", "transfn": "trans_sel_fn"}[case["fn"]]
@@ -357,8 +375,10 @@ def emit_case(case, out):
         if "exc" in out:
             return "(tres_agree (%s %s %s %s) ORaised)" % (fnm, M, sign, pref)
         Ms = E.lst2([[Fraction(x) + Fraction(t) for x, t in zip(r, case["shift"])] for r in case["mat"]], _q)
+        # the translated front through the body ASSEMBLED FROM THE GENERATED KERNELS of that copy (Gen/C19_Kernel.v)
+        knm = {"core": "kern_core", "prob": "kern_body K_prob", "transfn": "kern_body K_fn"}[case["fn"]]
         return "(tres_agree (%s %s %s %s) %s\n   && tres_agree (%s %s %s %s) %s)" % (
-            fnm, M, sign, pref, _obs(out["d"]), fnm, Ms, sign, pref, _obs(out["d_shift"]))
+            fnm, M, sign, pref, _obs(out["d"]), knm, Ms, sign, pref, _obs(out["d_shift"]))
     return "false"
 
 # ------------------------------------------------------------------ independent predicate
@@ -513,6 +533,64 @@ def describe(case, out):
     if k == "dom":
         d["feasible"] = "".join("F" if cv <= 0 else "I" for _, cv in case["sols"])
     return d
+
+# ------------------------------------------------------------------ entry points of the anchored modules (fail closed)
+COVERED = {   # file -> {function: parameters}; each is driven by run_impl with every parameter (positional and keyword forms)
+    "pybrops/core/util/pareto.py": {"is_pareto_efficient": ["fmat", "wt", "return_mask"]},
+    "pybrops/core/util/trans.py": {"trans_ndpt_pseudo_dist": ["ndptmat", "objfn_minmax", "objfn_pseudoweight"]},
+    "pybrops/breed/prot/sel/prob/trans.py": {"trans_ndpt_to_vec_dist": ["mat", "obj_wt", "vec_wt"]},
+    "pybrops/breed/prot/sel/transfn.py": {"trans_ndpt_to_vec_dist": ["mat", "objfn_wt", "wt"]},
+    "pybrops/opt/algo/pymoo_addon.py": {"dominates": ["obj1", "cv1", "obj2", "cv2"]},
+}
+_NOT_C19 = "not named by the property (no Pareto identification, dominance or distance-to-vector transformation)"
+SKIPPED = {
+    "pybrops/breed/prot/sel/prob/trans.py": {n: _NOT_C19 + "; latent-vector transformation of the selection problems"
+                                             for n in ("trans_identity", "trans_sum", "trans_dot", "trans_empty", "trans_decnvec_sum_eq")},
+    "pybrops/breed/prot/sel/transfn.py": {n: _NOT_C19 + "; legacy objective transformation"
+                                          for n in ("trans_sum", "trans_dot", "trans_flatten", "trans_inbmax_penalty", "trans_sum_inbmax_penalty",
+                                                    "trans_identity_unconstrained", "trans_max_inbreeding_constraint")},
+    "pybrops/opt/algo/pymoo_addon.py": dict(
+        {"tiled_choice": _NOT_C19 + "; sampling helper"},
+        **{n: _NOT_C19 + "; pymoo operator class (the hill climbers CALL dominates; their search loop is not part of this property)"
+           for n in ("SubsetRandomSampling", "ReducedExchangeCrossover", "ReducedExchangeMutation", "IntegerSimulatedBinaryCrossover",
+                     "IntegerPolynomialMutation", "MultiObjectiveStochasticHillClimberMutation",
+                     "MultiObjectiveSteepestDescentHillClimberMutation", "MultiObjectiveStochasticDescentHillClimberMutation",
+                     "StochasticHillClimberMutation", "MutatorA", "MutatorB", "MutatorF")}),
+}
+
+def _entry_points(repo):
+    """every public top-level function/class of the anchored modules is either driven (COVERED, with exactly the parameters the
+    driver passes) or listed in SKIPPED with a reason; anything new or re-parametrised fails the check until it is classified.
+    Also: SelectionProtocol still takes its default ndset_trans from sel/prob/trans.py (the route run_impl uses)."""
+    import ast, os
+    from translate import pyexpr as P
+    for rel, cov in COVERED.items():
+        tree = P.parse_file(repo, rel)
+        seen = {}
+        for n in tree.body:
+            if isinstance(n, (ast.FunctionDef, ast.AsyncFunctionDef, ast.ClassDef)) and not n.name.startswith("_"):
+                seen[n.name] = [a.arg for a in n.args.args] + [a.arg for a in n.args.kwonlyargs] if not isinstance(n, ast.ClassDef) else None
+        skip = SKIPPED.get(rel, {})
+        for name, params in seen.items():
+            if name in cov:
+                if params != cov[name]:
+                    raise P.Untranslatable("%s: %s now takes %s (the driver passes %s): extend the generators" % (rel, name, params, cov[name]))
+            elif name not in skip:
+                raise P.Untranslatable("%s: new public definition %s is neither driven by the C19 check nor listed in SKIPPED" % (rel, name))
+        for name in list(cov) + list(skip):
+            if name not in seen:
+                raise P.Untranslatable("%s: %s has disappeared" % (rel, name))
+    sp = P.parse_file(repo, "pybrops/breed/prot/sel/SelectionProtocol.py")
+    imp = [n for n in ast.walk(sp) if isinstance(n, ast.ImportFrom) and any(a.name == "trans_ndpt_to_vec_dist" for a in n.names)]
+    if len(imp) != 1 or imp[0].module != "pybrops.breed.prot.sel.prob.trans" or any(a.asname for a in imp[0].names):
+        raise P.Untranslatable("SelectionProtocol no longer imports trans_ndpt_to_vec_dist from pybrops.breed.prot.sel.prob.trans")
+
+def translate(repo, gen_dir):
+    """regenerate Gen/C19_Kernel.v (kernel expressions of is_pareto_efficient, dominates and the three distance transformations)
+    from the current source; fail closed"""
+    from translate import c19_kernel
+    _entry_points(repo)
+    return [c19_kernel.translate(repo, gen_dir)]
 
 def shrink(case, fails):
     """drop points while the predicate still fails"""
